@@ -191,8 +191,10 @@ def gen_sel(rng, allow_empty=True):
     r = rng.random()
     if r < 0.25 and allow_empty:
         return {}
-    if r < 0.8:
+    if r < 0.7:
         return {"app": rng.choice(APPS)}
+    if r < 0.8:
+        return {"canary": ""}                     # an entry with the empty value: only pods that carry the key with that value
     return {"app": rng.choice(APPS), "tier": rng.choice(TIERS)}
 
 
@@ -237,6 +239,8 @@ def gen_pod(rng, name, nss, used_ips):
     lab = {"app": rng.choice(APPS)}
     if rng.random() < 0.5:
         lab["tier"] = rng.choice(TIERS)
+    if rng.random() < 0.2:
+        lab["canary"] = rng.choice(["", "", "yes"])
     return {"ns": rng.choice(nss), "name": name, "labels": lab, "ip": "" if rng.random() < 0.04 else ip,
             "node": HOST if rng.random() < 0.7 else "node2"}
 
@@ -248,6 +252,12 @@ def gen_cluster(rng, ctx):
     for i in range(rng.randrange(2, 7)):
         p = gen_pod(rng, "p%d" % i, nss, used)
         w["pods"][p["ns"] + "/" + p["name"]] = p
+        if rng.random() < 0.3:
+            # a pod whose name CONTAINS this one's (db-0 / mongodb-0), same namespace: whatever identifies a pod's rules by its
+            # name must not match the other's
+            q = gen_pod(rng, "x" + p["name"], [p["ns"]], used)
+            w["pods"][q["ns"] + "/" + q["name"]] = q
+            ctx.dist("cluster:pod-name-contains-another")
     for i in range(rng.choice([0, 1, 1, 2, 2, 3, 4])):
         x = gen_policy(rng, "pol%d" % i, nss)
         w["pols"][x["ns"] + "/" + x["name"]] = x
